@@ -325,7 +325,7 @@ func genProgram(tp *simrt.Tape, cfg gp.SimulatorConfig, legalPct int) textCase {
 	for i := 0; i < nLabels; i++ {
 		g.labels = append(g.labels, g.name("l"))
 	}
-	special := tp.Draw("prog.special", 34)
+	special := tp.Draw("prog.special", 36)
 	for i := 0; i < nItems; i++ {
 		g.item(0)
 	}
@@ -334,6 +334,15 @@ func genProgram(tp *simrt.Tape, cfg gp.SimulatorConfig, legalPct int) textCase {
 		g.emitInstr("")
 	}
 	switch special {
+	case 15: // the same opcode written in a form and in its mirror image (immediate operand on the other side, direct mode left out)
+		op := []string{"mov", "add", "sub", "cmp", "djn", "jmz", "jmn", "spl", "slt", "jmp"}[tp.Draw("mirror.op", 10)]
+		x, y := g.lit(), g.lit()
+		pair := []string{op + " #" + x + ", " + y, op + " " + y + ", #" + x}
+		if tp.Draw("mirror.order", 2) == 0 {
+			pair[0], pair[1] = pair[1], pair[0]
+		}
+		g.lines = append(g.lines, pair...)
+		g.notes = append(g.notes, "mirror-image-operands")
 	case 12: // a lone self-referential EQU in front of everything (also of the first FOR)
 		a := g.name("c")
 		g.lines = append([]string{a + " equ " + a + "+1"}, g.lines...)
